@@ -24,6 +24,8 @@ type CompOpts struct {
 	OperationIDs  bool
 	SchemaDepth   int
 	NumSchemas    int
+	MinSchemas    int
+	AlwaysBody    bool
 }
 
 func DefaultCompOpts() CompOpts {
@@ -50,7 +52,7 @@ func (c *Ctx) Composition(o CompOpts) *Doc {
 	t := c.T
 	d := c.Doc
 	// component schemas
-	ns := rapid.IntRange(0, o.NumSchemas).Draw(t, "nschemas")
+	ns := rapid.IntRange(o.MinSchemas, max(o.NumSchemas, o.MinSchemas)).Draw(t, "nschemas")
 	for i := 0; i < ns; i++ {
 		name := c.CompName("Sch", "schema")
 		s := c.Schema(o.SchemaDepth, "component")
@@ -124,7 +126,7 @@ func (c *Ctx) Composition(o CompOpts) *Doc {
 					op.Parameters = append(op.Parameters, p)
 				}
 			}
-			if o.Bodies && m != "GET" && m != "HEAD" && rapid.Bool().Draw(t, "has_body") {
+			if o.Bodies && m != "GET" && m != "HEAD" && (o.AlwaysBody || rapid.Bool().Draw(t, "has_body")) {
 				op.RequestBody = c.RequestBody()
 			}
 			c.Responses(op, o.RichResponses)
@@ -238,6 +240,11 @@ func (c *Ctx) BodySchema(label string) *Schema {
 		// a body that is an array of inline objects is named "Item" without a prefix:
 		// two of them in one spec collide (known finding C01-F10)
 		if s.Type == "array" && s.Items != nil && s.Items.Ref == "" && (s.Items.Type == "object" || s.Items.Type == "array") && !c.Allow("body:array-of-inline-object") {
+			continue
+		}
+		// an inline body that is a pure map (object without properties) is encoded with
+		// the Go field name AdditionalProperties (known finding)
+		if s.Ref == "" && s.Type == "object" && len(s.Properties) == 0 && !c.Allow("body:inline-map") {
 			continue
 		}
 		return s
@@ -595,7 +602,7 @@ func (c *Ctx) MapFat() *Doc {
 // params family (C04, C09): query / header declarations at operation and path-item
 // level, with overriding, inline / schema $ref / component parameter forms.
 
-func (c *Ctx) ParamsDoc(withPathVars bool) *Doc {
+func (c *Ctx) ParamsDoc(withPathVars bool, withBodies ...bool) *Doc {
 	t := c.T
 	d := c.Doc
 	np := rapid.IntRange(2, 4).Draw(t, "npaths")
@@ -639,6 +646,9 @@ func (c *Ctx) ParamsDoc(withPathVars bool) *Doc {
 			pi.SetOp(m, op)
 			if !pathVarsAtPathLevel {
 				op.Parameters = append(op.Parameters, pathVars...)
+			}
+			if len(withBodies) > 0 && withBodies[0] && (m == "POST" || m == "PUT") && rapid.Bool().Draw(t, "has_body") {
+				op.RequestBody = c.RequestBody()
 			}
 			nop := rapid.IntRange(1, 4).Draw(t, "noplevel")
 			for j := 0; j < nop; j++ {
@@ -831,4 +841,17 @@ func (c *Ctx) CorsDoc() *Doc {
 		}
 	}
 	return d
+}
+
+// JSONDoc: the JSON family (C06-C08): component schemas over K at every position and
+// operations carrying them as request and response bodies.
+func (c *Ctx) JSONDoc() *Doc {
+	o := DefaultCompOpts()
+	o.MinSchemas, o.NumSchemas = 3, 8
+	o.MaxTemplates, o.MaxDepth = 3, 2
+	o.Params, o.Security, o.Texts, o.TypedPathVars = false, false, false, false
+	o.Bodies, o.AlwaysBody, o.RichResponses = true, true, true
+	o.Methods = []string{"POST", "PUT", "PATCH", "GET"}
+	o.SchemaDepth = 3
+	return c.Composition(o)
 }
